@@ -677,17 +677,22 @@ Qed.
 Lemma hvalues_hdel_all_notin k : forall ks h, mem_str k ks = false -> hvalues k (hdel_all ks h) = hvalues k h.
 Proof.
   induction ks as [|k0 ks IH]; intros h H; [reflexivity|].
-  cbn [mem_str] in H. apply orb_false_iff in H as [H1 H2]. cbn. rewrite IH by auto. now apply hvalues_hdel_other.
+  cbn [mem_str] in H. apply orb_false_iff in H as [H1 H2].
+  change (hdel_all (k0 :: ks) h) with (hdel_all ks (hdel k0 h)). rewrite IH by auto. now apply hvalues_hdel_other.
 Qed.
 
 Lemma hvalues_hdel_all_in k : forall ks h, mem_str k ks = true -> hvalues k (hdel_all ks h) = [].
 Proof.
   induction ks as [|k0 ks IH]; intros h H; [discriminate|].
-  cbn in H. cbn. destruct (mem_str k ks) eqn:E.
+  cbn [mem_str] in H. change (hdel_all (k0 :: ks) h) with (hdel_all ks (hdel k0 h)).
+  destruct (mem_str k ks) eqn:E.
   - now apply IH.
   - rewrite orb_false_r in H. apply str_eqb_eq in H. subst k0.
     rewrite hvalues_hdel_all_notin by auto. apply hvalues_hdel_same.
 Qed.
+
+Lemma mem_str_app k : forall a b, mem_str k (a ++ b) = mem_str k a || mem_str k b.
+Proof. induction a as [|x a IH]; intro b; cbn; [reflexivity|]. now rewrite IH, orb_assoc. Qed.
 
 Lemma hget_hvalues k h h' : hvalues k h = hvalues k h' -> hget k h = hget k h'.
 Proof. unfold hget. now intros ->. Qed.
@@ -746,16 +751,18 @@ Proof.
   { intros k Hk. cbn in Hk. rewrite orb_false_r in Hk.
     apply orb_false_iff in Hk as [Ha Hk]. apply orb_false_iff in Hk as [Hb Hc].
     subst out2. rewrite !hvalues_hset_other by auto. now apply Hother1. }
+  assert (Hlast : forall h', (forall k, mem_str k [K_xff; K_xfp; K_xfh] = false -> hvalues k h' = hvalues k out2) ->
+                       forall k, mem_str k [K_xff; K_xfp; K_xfh] = false -> hvalues k h' = hvalues k out).
+  { intros h' Hh' k Hk. rewrite Hh' by auto. now apply H2o. }
   destruct fwd; cbn [andb].
   - destruct (is_empty (hget K_xfp inh)) eqn:Ep; destruct (is_empty (hget K_xfh inh)) eqn:Eh; cbn [negb];
-      repeat split;
-      rewrite ?hvalues_hset_same, ?(hvalues_hset_other K_xff K_xfp), ?(hvalues_hset_other K_xff K_xfh),
-              ?(hvalues_hset_other K_xfp K_xfh), ?(hvalues_hset_other K_xfh K_xfp), ?hvalues_hset_same by reflexivity;
-      rewrite ?H2ff, ?H2fp, ?H2fh, ?Hxff; auto;
-      intros k Hk; pose proof (H2o k Hk) as Hk2; cbn in Hk; rewrite orb_false_r in Hk;
-      apply orb_false_iff in Hk as [Ha Hk]; apply orb_false_iff in Hk as [Hb Hc];
-      rewrite ?hvalues_hset_other by auto; exact Hk2.
-  - repeat split; rewrite ?H2ff, ?H2fp, ?H2fh, ?Hxff; auto.
+      (split; [|split; [|split]]);
+      try (apply Hlast; intros k Hk; cbn [mem_str] in Hk; rewrite orb_false_r in Hk;
+           apply orb_false_iff in Hk as [Ha Hk]; apply orb_false_iff in Hk as [Hb Hc];
+           now rewrite ?hvalues_hset_other by auto);
+      repeat (rewrite hvalues_hset_same || rewrite hvalues_hset_other by reflexivity);
+      rewrite ?H2ff, ?H2fp, ?H2fh, ?Hxff; reflexivity.
+  - (split; [|split; [|split]]); rewrite ?H2ff, ?H2fp, ?H2fh, ?Hxff; auto.
 Qed.
 
 Definition not_wire_key (k : str) : bool := negb (mem_str k [K_ua; K_te; K_cl; K_ae]).
@@ -828,19 +835,9 @@ Lemma target_header_kept e fwd method host raw k :
   mem_str k (connection_listed (after_middleware e raw)) = false ->
   hvalues k (target_headers e fwd method host raw) = hvalues k (after_middleware e raw).
 Proof.
-  intros Hk Hc. unfold reserved_request_keys in Hk.
-  assert (Hhop : mem_str k hop_headers = false).
-  { destruct (mem_str k hop_headers) eqn:E; auto.
-    assert (mem_str k (hop_headers ++ [K_forwarded; K_xff; K_xfh; K_xfp; K_ua; K_te; K_cl; K_ae]) = true).
-    { clear -E. induction hop_headers as [|a l IH]; [discriminate|]. cbn in *.
-      destruct (str_eqb k a); auto. }
-    congruence. }
-  assert (Hrest : mem_str k [K_forwarded; K_xff; K_xfh; K_xfp; K_ua; K_te; K_cl; K_ae] = false).
-  { destruct (mem_str k [K_forwarded; K_xff; K_xfh; K_xfp; K_ua; K_te; K_cl; K_ae]) eqn:E; auto.
-    assert (mem_str k (hop_headers ++ [K_forwarded; K_xff; K_xfh; K_xfp; K_ua; K_te; K_cl; K_ae]) = true).
-    { clear -E. induction hop_headers as [|a l IH]; [exact E|]. cbn. rewrite IH. apply orb_true_r. }
-    congruence. }
-  cbn in Hrest. rewrite orb_false_r in Hrest.
+  intros Hk Hc. unfold reserved_request_keys in Hk. rewrite mem_str_app in Hk.
+  apply orb_false_iff in Hk as [Hhop Hrest].
+  cbn [mem_str] in Hrest. rewrite orb_false_r in Hrest.
   apply orb_false_iff in Hrest as [R1 Hrest]. apply orb_false_iff in Hrest as [R2 Hrest].
   apply orb_false_iff in Hrest as [R3 Hrest]. apply orb_false_iff in Hrest as [R4 Hrest].
   apply orb_false_iff in Hrest as [R5 Hrest]. apply orb_false_iff in Hrest as [R6 Hrest].
@@ -850,9 +847,9 @@ Proof.
   set (out := hdel_all [K_forwarded; K_xff; K_xfh; K_xfp] (remove_hop_by_hop inh)).
   assert (Hout : hvalues K_xff out = []) by (subst out; now apply hvalues_hdel_all_in).
   destruct (forward_headers_spec fwd (e_client_ip e) (e_tls e) host inh out Hout) as (_ & _ & _ & H4).
-  rewrite wire_headers_other by (cbn; now rewrite R5, R6, R7, R8).
-  rewrite H4 by (cbn; now rewrite R2, R4, R3).
-  subst out. rewrite hvalues_hdel_all_notin by (cbn; now rewrite R1, R2, R3, R4).
+  rewrite wire_headers_other by (cbn [mem_str]; now rewrite R5, R6, R7, R8).
+  rewrite H4 by (cbn [mem_str]; now rewrite R2, R4, R3).
+  subst out. rewrite hvalues_hdel_all_notin by (cbn [mem_str]; now rewrite R1, R2, R3, R4).
   now apply remove_hop_other.
 Qed.
 
@@ -864,15 +861,15 @@ Lemma request_id_droppable :
     hvalues K_rid (target_headers e fwd method host raw) = [].
 Proof.
   exists (mkEnv (bs "127.0.0.1") false (bs "fresh") (bs "1")), false, (bs "GET"), (bs "h"),
-         [(bs "connection", bs "x-request-id")].
+         ([(bs "connection", bs "x-request-id")] : headers).
   vm_compute. split; [discriminate | reflexivity].
 Qed.
 
 (** Response headers: what is not hop-by-hop or framing passes unchanged. *)
-Lemma client_header_kept gz ne raw k :
+Lemma client_header_kept (gz nonempty : bool) raw k :
   mem_str k (K_cl :: K_ce :: hop_headers) = false ->
   mem_str k (connection_listed (if gz then hdel K_ce (resp_canonical raw) else resp_canonical raw)) = false ->
-  hvalues k (fst (fst (client_headers gz ne raw))) = hvalues k (resp_canonical raw).
+  hvalues k (fst (fst (client_headers gz nonempty raw))) = hvalues k (resp_canonical raw).
 Proof.
   intros Hk Hc. cbn [mem_str] in Hk.
   apply orb_false_iff in Hk as [K1 Hk]. apply orb_false_iff in Hk as [K2 Hhop].
